@@ -770,6 +770,25 @@ func (x *exec) openMgr(pub []byte) (*waddrmgr.Manager, error) {
 	return m, err
 }
 
+// reopenAfterFailedChange replaces the running manager by one opened on the
+// database after a rolled-back passphrase change: the stored keys must still
+// open under the passphrases that were current before the attempt.
+func (x *exec) reopenAfterFailedChange(prop string) string {
+	x.mgr.Close()
+	x.mgr = nil
+	m, err := x.openMgr(x.diskPub)
+	if err != nil {
+		x.env.Fail(prop, "open:right-passphrase-rejected:after=failed-passphrase-change",
+			"waddrmgr.Open with the public passphrase on disk failed after a rolled-back passphrase change: %v", err)
+		return "violation"
+	}
+	x.mgr = m
+	x.memPub, x.memPriv = x.diskPub, x.diskPriv
+	x.mevents = append(x.mevents, "failed-passphrase-change")
+	x.wasLocked = true
+	return ""
+}
+
 func (x *exec) faultFor(i int) *core.Fault {
 	for j := range x.p.Fault {
 		if x.p.Fault[j].Op == i {
@@ -1271,18 +1290,21 @@ func (x *exec) step(i int, op core.Op, sweepMax int) string {
 			}
 			return "wrong-old rejected"
 		case fired && kind == "commit":
-			// ChangePassphrase itself succeeded (memory switched to the new
-			// master key) but the transaction did not commit: memory and
-			// disk now disagree until the next restart. Which of the two is
-			// "right" is C08's question; here the harness just tracks both.
+			// ChangePassphrase itself succeeded but the transaction did not
+			// commit. Whether the RUNNING manager is still on the old
+			// passphrase afterwards is C10's question (decided by addrsim's
+			// fault enumeration); C17 is about which passphrase opens which
+			// stored key, so the manager is reopened from the (unchanged)
+			// database and the run continues from there.
 			env.Count("fault.commit")
 			if inner != nil {
 				env.Fail(prop, "chpass:right-passphrase-rejected:which="+which, "ChangePassphrase(%s) with the current passphrase failed: %v", which, inner)
 				return "violation"
 			}
-			*mem = newPw
-			x.mevents = append(x.mevents, "failed-passphrase-change")
-			return "commit-failed mem=new disk=old"
+			if r := x.reopenAfterFailedChange(prop); r != "" {
+				return r
+			}
+			return "commit-failed, manager reopened"
 		case fired:
 			env.Count("fault.dbwrite")
 			if inner == nil {
@@ -1291,8 +1313,10 @@ func (x *exec) step(i int, op core.Op, sweepMax int) string {
 				// resynchronise the passphrase model from the outcome.
 				x.infra("ChangePassphrase swallowed an injected write failure")
 			}
-			x.mevents = append(x.mevents, "failed-passphrase-change")
-			return "write-failed unchanged"
+			if r := x.reopenAfterFailedChange(prop); r != "" {
+				return r
+			}
+			return "write-failed, manager reopened"
 		default:
 			if inner != nil || err != nil {
 				env.Fail(prop, "chpass:right-passphrase-rejected:which="+which, "ChangePassphrase(%s) with the current passphrase failed: %v / %v", which, inner, err)
